@@ -202,10 +202,25 @@ func init() {
 		}
 		return ts.False, r, true
 	})
-	I["(*math/big.Int).ModInverse"] = bin(func(e *Engine, st *State, xn, xm, yn, ym *Term, in ssa.Instruction) (*Term, *Term, bool) {
+	modInvSym := bin(func(e *Engine, st *State, xn, xm, yn, ym *Term, in ssa.Instruction) (*Term, *Term, bool) {
 		// z = g^-1 mod n, characterised by (g*z) mod n == 1 and z < n. Sound when n is
 		// prime (the inverse exists iff g mod n != 0); harnesses use prime moduli only.
 		ts := e.ts
+		if xm.IsConst() && ym.IsConst() && xn.IsConst() {
+			g := new(big.Int).Set(xm.bigVal())
+			if xn.IsTrue() {
+				g.Neg(g)
+			}
+			r := new(big.Int).ModInverse(g, ym.bigVal())
+			if r == nil {
+				panic(encErr("ModInverse: concrete value has no inverse (handled by the caller)"))
+			}
+			w := r.BitLen()
+			if w == 0 {
+				w = 1
+			}
+			return ts.False, ts.ConstBig(w, r), true
+		}
 		if !xn.IsFalse() {
 			panic(encErr("ModInverse of possibly negative value"))
 		}
@@ -224,6 +239,27 @@ func init() {
 		st.model = nil
 		return ts.False, z, true
 	})
+	I["(*math/big.Int).ModInverse"] = func(e *Engine, st *State, a []Value, in ssa.Instruction) Value {
+		// concrete operands without an inverse: z is unchanged and the result is nil (as documented)
+		xn, xm, ok := e.bigGet(st, a[1], in)
+		if !ok {
+			return nil
+		}
+		_, ym, ok := e.bigGet(st, a[2], in)
+		if !ok {
+			return nil
+		}
+		if xm.IsConst() && ym.IsConst() && xn.IsConst() && ym.bigVal().Sign() != 0 {
+			g := new(big.Int).Set(xm.bigVal())
+			if xn.IsTrue() {
+				g.Neg(g)
+			}
+			if new(big.Int).ModInverse(g, ym.bigVal()) == nil {
+				return Ptr{obj: nil, off: e.c64(0)}
+			}
+		}
+		return modInvSym(e, st, a, in)
+	}
 	I["(*math/big.Int).Set"] = func(e *Engine, st *State, a []Value, in ssa.Instruction) Value {
 		n, m, ok := e.bigGet(st, a[1], in)
 		if !ok {
